@@ -219,7 +219,10 @@ def kw_check(case, ctx):
 # ---- random token sequences with splices -----------------------------------------------------------------
 
 NUMBERS = ["0", "1", "42", "1e+5", "1E-5", "0x1p+3", "0xe+1", "1..2", "1.e+5", ".5", "1_0", "12ab", "1e", "1e+", "0x", "1.2.3", "1e+5-1", "1e5-1", "0b101",
-           "1u", "1ull", "1.0f", "0x1.8p-3f", "00", "09", "1'0"]
+           "1u", "1ull", "1.0f", "0x1.8p-3f", "00", "09", "1'0",
+           # a sign belongs to a pp-number only directly after e E p P (6.4.8): hexadecimal digits e/E further left do not count
+           "0xef+1", "0xFEED-1", "0xdeadbeef+1", "0XBEEF-x", "0xeU+2", "0x1eLL-1", "0xe+1", "0x1E-1", "0xe1+1", "0xfd+1", "1e+5+1", "0x1p+1+1", "0xep+1",
+           "1.e-3-2", "0x.ep-1", "1E+", "0xE", "0xee", "0x1e", "12e", "0e0+0", "1p+1", "0xa.bp+3+x", "1e5e+5", "1.2e+3.4e+5"]
 PUNCTS = clex.PUNCT
 WORDS = ["a", "b1", "_x", "int", "while", "u", "u8", "L", "U", "u8x", "Lx", "sizeof", "_Bool", "x_y", "abc123",
          # identifiers that look like encoding prefixes but are not (an identifier directly followed by a quote stays an identifier)
